@@ -20,11 +20,13 @@ Definition optbool_eqb (a b : option bool) : bool :=
 
 Definition optunit_eqb (a b : option (dec * str)) : bool :=
   match a, b with None, None => true | Some x, Some y => unit_eqb x y | _, _ => false end.
+Definition optoptstr_eqb (a b : option (option str)) : bool :=
+  match a, b with None, None => true | Some x, Some y => optstr_eqb x y | _, _ => false end.
 Definition DT (y m d h mi s u : N) (z : option Z) : dtime := mkdt y m d h mi s u z.
 (* the same instant and the same offset; Z and +00:00 both decode to offset 0 *)
 Definition midnight (y m d : N) : dtime := mkdt y m d 0 0 0 0 None.
 
-Definition whole_minute_tz (o : option Z) : bool := match o with None => true | Some z => (z mod 60 =? 0)%Z end.
+Definition whole_minute_tz (o : option Z) : bool := match o with None => true | Some z => (z mod 60000000 =? 0)%Z end.
 
 Inductive ccase :=
 | CDur (us : Z) (enc : str) (dec : option Z)          (* Duration.encode(timedelta(microseconds=us)) ; Duration.decode of that *)
@@ -38,13 +40,15 @@ Inductive ccase :=
 | CRgb (r g b : Z) (enc : option str) (dec : option (N * N * N))   (* rgb2hex((r,g,b)) ; hex2rgb of that *)
 | CHexDec (t : str) (out : option (N * N * N))
 | CCss (name : str) (enc : option str) (dec : option (N * N * N))  (* rgb2hex(name) ; hex2rgb of that *)
-| CHexa (t : str) (out : option str)                   (* hexa_color(t) *)
+| CHexa (i : hinput) (out : option (option str))       (* hexa_color(i): None = raised, Some None = returned None *)
 | CUnitStr (d : dec) (u : str) (enc : str) (back : option (dec * str))   (* str(Unit(d, u)) ; Unit(that) as (value.as_tuple(), unit) *)
-| CUnitDec (t : str) (out : option (dec * str)).       (* Unit(t) *)
+| CUnitDec (t : str) (out : option (dec * str))        (* Unit(t) *)
+| CUnitFloat (r : str) (out : option dec)              (* Unit(float with repr r).value *)
+| CUnitConv (d : dec) (u : str) (dpi : Z) (out : option Z)   (* Unit(d, u).convert("px", dpi).value, None = raised *)
+| CBoolEnc (i : binput) (out : option str).            (* Boolean.encode on any argument *)
 
 (* codes:  1 round trip / decoded value wrong   2 encoded string outside the lexical form   3 encoder differs from the model
            4 decoder differs from the model (accepts what it must reject, rejects what it must read, or another value)
-           9 only leniency of datetime.fromisoformat outside xsd:dateTime (not an alarm).
    The property's own predicates (1, 2) are evaluated first, on the implementation's outputs alone; then the comparison with the model (3, 4). *)
 Definition chk18 (css : list (str * (Z * Z * Z))) (c : ccase) : nat :=
   match c with
@@ -87,7 +91,7 @@ Definition chk18 (css : list (str * (Z * Z * Z))) (c : ccase) : nat :=
       match datetime_decode t, out with
       | Some v, Some w => if dtime_eqb v w then 0 else 1
       | Some _, None => 4
-      | None, Some _ => 9
+      | None, Some _ => 2      (* a string outside the ODF date / dateTime forms is given a value *)
       | None, None => 0
       end
   | CRgb r g b enc dec =>
@@ -119,13 +123,28 @@ Definition chk18 (css : list (str * (Z * Z * Z))) (c : ccase) : nat :=
         | None => 3
         end
       end
-  | CHexa t out => if optstr_eqb out (hexa_color_str css t) then 0 else 3
+  | CHexa i out =>
+      match out with
+      | Some (Some h) =>
+          (* what is returned must be #rrggbb and denote the colour given *)
+          if negb (color_lexical h) then 2
+          else if negb (optrgb_eqb (hex2rgb h) (hexa_denotes css i)) then 1
+          else if optoptstr_eqb out (hexa_color css i) then 0 else 3
+      | _ => if optoptstr_eqb out (hexa_color css i) then 0 else 3
+      end
   | CUnitStr d u enc back =>
       (* lengths compare by numeric value and unit (Unit.__eq__) *)
       if negb (match back with Some (d', u') => dec_num_eqb d d' && str_eqb u u' | None => false end) then 1
       else if negb (unit_lexical enc) then 2
       else if negb (str_eqb enc (unit_str d u)) then 3
       else if negb (optunit_eqb back (unit_parse enc)) then 4 else 0
+  | CUnitFloat r out => match out, unit_of_float r with Some a, Some b => if dec_eqb a b then 0 else 3 | None, None => 0 | _, _ => 3 end
+  | CUnitConv d u dpi out => match out, unit_convert_px d u dpi with Some a, Some b => if (a =? b)%Z then 0 else 3 | None, None => 0 | _, _ => 3 end
+  | CBoolEnc i out =>
+      match out with
+      | Some t => if negb (bool_lexical t) then 2 else if optstr_eqb out (bool_encode_any i) then 0 else 3
+      | None => if optstr_eqb out (bool_encode_any i) then 0 else 3
+      end
   | CUnitDec t out =>
       match out with
       | Some v => if negb (unit_lexical t) then 2 else if optunit_eqb out (unit_parse t) then 0 else 1
